@@ -21,11 +21,23 @@ open Scc.Heap.Refine (HRef imgW fieldImg kindB href_store FrLe Room frLe_store)
 
 /-! ## the fields the machine holds -/
 
-variable {mc : MonCfg} {α : Word → Word}
+variable {mc : MonCfg} {cw : Nat → Word} {τ : Nat → Nat → Word}
 
-theorem kindB_trF (f : Abs.Field) : kindB (trF α f) = kindB f := rfl
+theorem kindB_trF (m : Word) (f : Abs.Field) : kindB (trF m f) = kindB f := rfl
 
 theorem chi_bne_iff (c : Chi) : (c != Chi.ext) = !(c == Chi.ext) := rfl
+
+theorem trFieldsP_shift (mw : Nat → Word) (n : Nat) : ∀ (k : Nat) (fs : List Abs.Field),
+    trFieldsP (fun j => mw (n + j)) k fs = trFieldsP mw (n + k) fs
+  | _, [] => rfl
+  | k, f :: fs => by
+    simp only [trFieldsP]
+    rw [trFieldsP_shift mw n (k + 1) fs]
+    rfl
+
+/-- the closure words of the fields of the object that `store` creates: those of the stored positions -/
+def storeTau (τ : Nat → Nat → Word) (next : Nat) (cw : Nat → Word) (n : Nat) : Nat → Nat → Word :=
+  fun id j => if id = next then cw (n + j) else τ id j
 
 /-- the variables `Δ` at positions `k, k+1, …` hold, on the machine, the images of the fields that the
 abstract `store` reads -/
@@ -33,10 +45,10 @@ theorem envFields_of_read {st : State} {ι : Nat → Nat} {σ : Temps} :
     ∀ (Δ : Ctx) (k : Nat) (fields : List Abs.Field),
     readFields σ (Mock.kindsOf Δ) k = some fields →
     (∀ j (hj : j < Δ.length) a, σ.get (2 * (k + j) + 1) = some a →
-      rv st (2 * (k + j) + 1) = some (trW α Δ[j].chi a)) →
+      rv st (2 * (k + j) + 1) = some (trW Δ[j].chi a (cw (k + j)))) →
     (∀ j (hj : j < Δ.length), Δ[j].chi ≠ .ext → ∀ r, σ.get (2 * (k + j)) = some r →
       rv st (2 * (k + j)) = some (imgWord ι r) ∧ (r ≠ 0 → ι r.toNat < 2 ^ 64)) →
-    EnvFields (mview st) k Δ ((fields.map (trF α)).map (fieldImg ι))
+    EnvFields (mview st) k Δ ((trFieldsP cw k fields).map (fieldImg ι))
   | [], k, fields, hf, _, _ => by
     simp only [Mock.kindsOf, List.map_nil, readFields, Option.some.injEq] at hf
     subst hf
@@ -69,8 +81,8 @@ theorem envFields_of_read {st : State} {ι : Nat → Nat} {σ : Temps} :
           refine ⟨?_, ih⟩
           unfold FieldAt
           rw [if_pos hext]
-          refine ⟨trW α b.chi w, ?_, hw0⟩
-          have hk : kindB (trF α ⟨b.chi, 0, w⟩) = false := by
+          refine ⟨trW b.chi w (cw k), ?_, hw0⟩
+          have hk : kindB (trF (cw k) ⟨b.chi, 0, w⟩) = false := by
             show (b.chi != Chi.ext) = false
             rw [chi_bne_iff, hext]; rfl
           simp only [fieldImg, hk, Bool.false_eq_true, if_false]
@@ -88,8 +100,8 @@ theorem envFields_of_read {st : State} {ι : Nat → Nat} {σ : Temps} :
             refine ⟨?_, ih⟩
             unfold FieldAt
             rw [if_neg hext]
-            refine ⟨imgWord ι p, trW α b.chi w, ?_, hpv, hw0⟩
-            have hk : kindB (trF α ⟨b.chi, p, w⟩) = true := by
+            refine ⟨imgWord ι p, trW b.chi w (cw k), ?_, hpv, hw0⟩
+            have hk : kindB (trF (cw k) ⟨b.chi, p, w⟩) = true := by
               show (b.chi != Chi.ext) = true
               rw [chi_bne_iff]
               simp only [Bool.not_eq_true']
@@ -128,7 +140,7 @@ theorem storedReg_keep {st st' : State} {n len : Nat}
 /-- THE ABSTRACT `store` (at least one field) AGAINST `Memory::store` -/
 theorem store_x3 {la : String → Option Nat}
     {Γ : Ctx} {cfg cfg1 : Config} {hs : HState} {ι : Nat → Nat} {st : State}
-    (X : X3 mc α Γ cfg hs ι st) {n : Nat} (hn : n < Γ.length) {fields : List Abs.Field}
+    (X : X3 mc cw τ Γ cfg hs ι st) {n : Nat} (hn : n < Γ.length) {fields : List Abs.Field}
     (hf : readFields cfg.temps (Mock.kindsOf (Γ.drop n)) n = some fields)
     (hch : Obj.children ⟨0, fields⟩ = roots.go cfg.temps (Γ.drop n) n)
     (hnext : cfg.next < 2 ^ 64)
@@ -138,7 +150,7 @@ theorem store_x3 {la : String → Option Nat}
     ∃ code kk', (store (Γ.drop n) (Γ.take n)).run kk = .ok (code, kk') ∧ MemFree code ∧
       Code.LAB "cleanup" ∉ code ∧
       ∃ st' hs' p, execFwd mc la code st = .ok (st', .fall) ∧
-        X3R mc α (Γ.take n) cfg1 (roots (Γ.take n) cfg.temps ++ [cfg.next]) hs'
+        X3R mc cw (storeTau τ cfg.next cw n) (Γ.take n) cfg1 (roots (Γ.take n) cfg.temps ++ [cfg.next]) hs'
           (fun i => if i = cfg.next then p else ι i) st' ∧
         rv st' (2 * n) = some (BitVec.ofNat 64 p) ∧ p ≠ 0 ∧ p < 2 ^ 64 ∧
         FrLe hs hs' (64 * (Γ.length - n)) := by
@@ -149,7 +161,7 @@ theorem store_x3 {la : String → Option Nat}
   have hlenD : (Γ.drop n).length = Γ.length - n := by simp
   have hsplit := roots_split cfg.temps Γ n hnle
   -- what the machine holds
-  have hE : EnvFields (mview st) n (Γ.drop n) ((fields.map (trF α)).map (fieldImg ι)) := by
+  have hE : EnvFields (mview st) n (Γ.drop n) ((trFieldsP cw n fields).map (fieldImg ι)) := by
     apply envFields_of_read (Γ.drop n) n fields hf
     · intro j hj a ha
       have hj' : n + j < Γ.length := by rw [hlenD] at hj; omega
@@ -161,36 +173,38 @@ theorem store_x3 {la : String → Option Nat}
       exact ⟨X.ptrs (n + j) hj' hc' r hr, fun h0 => (X3R.ref_lt X hj' hc' hr h0).1⟩
   have hflen : fields.length = Γ.length - n := by
     have := hE.length_eq
-    simp only [List.length_map] at this
+    simp only [List.length_map, trFieldsP_length] at this
     rw [← this, hlenD]
   -- the block-level store
-  have hcho : Obj.children ⟨0, fields.map (trF α)⟩ = roots.go cfg.temps (Γ.drop n) n := by
-    rw [← hch]; exact trO_children (α := α) ⟨0, fields⟩
-  have R0 : HRef (trHeap α cfg.heap) (roots (Γ.take n) cfg.temps ++ Obj.children ⟨0, fields.map (trF α)⟩) cfg.next
+  have hcho : Obj.children ⟨0, trFieldsP cw n fields⟩ = roots.go cfg.temps (Γ.drop n) n := by
+    rw [← hch]; exact trFieldsP_children cw 0 n fields
+  have R0 : HRef (trHeap τ cfg.heap) (roots (Γ.take n) cfg.temps ++ Obj.children ⟨0, trFieldsP cw n fields⟩) cfg.next
       hs ι := by
     rw [hcho, ← hsplit]; exact X.href
-  obtain ⟨hs', p, hop, R1⟩ := href_store (o := ⟨0, fields.map (trF α)⟩) rfl
+  obtain ⟨hs', p, hop, R1⟩ := href_store (o := ⟨0, trFieldsP cw n fields⟩) rfl
     (by
       intro e
-      have : fields.length = 0 := by simpa using congrArg List.length e
+      have : fields.length = 0 := by
+        have := congrArg List.length e
+        simpa [trFieldsP_length] using this
       omega)
     hnext R0
     (by
       obtain ⟨lin, lazy, live, Fr, I⟩ := X.href.conc
       refine ⟨lin, lazy, live, Fr, ?_, ?_⟩
       · rw [hcho, ← hsplit]; exact I
-      · simp only [List.length_map]; rw [hflen]; have := hroom _ _ _ _ _ I; omega)
+      · simp only [trFieldsP_length]; rw [hflen]; have := hroom _ _ _ _ _ I; omega)
   have hfr : FrLe hs hs' (64 * (Γ.length - n)) := by
-    have := frLe_store (o := ⟨0, fields.map (trF α)⟩) R0
-      (by simp only [List.length_map]; rw [hflen]; exact hroom) hop
-    simpa [hflen] using this
+    have := frLe_store (o := ⟨0, trFieldsP cw n fields⟩) R0
+      (by simp only [trFieldsP_length]; rw [hflen]; exact hroom) hop
+    simpa [hflen, trFieldsP_length] using this
   -- the machine
   obtain ⟨code, kk', hrun, hle, hlabs, st', hx, B', HR', ⟨w, hw, ew⟩, FT⟩ :=
     store_contract (la := la) X.bnd X.hrel (toStore := Γ.drop n) (rem := Γ.take n)
       (by rw [hlenT, hlenD]; omega) (by rw [hlenT]; omega) (by rw [hlenT]; exact hE) hop kk
   rw [hlenT] at hw FT
-  have hnew : (cfg.next, (⟨0, fields.map (trF α)⟩ : Obj)) ∈
-      (cfg.next, (⟨0, fields.map (trF α)⟩ : Obj)) :: trHeap α cfg.heap :=
+  have hnew : (cfg.next, (⟨0, trFieldsP cw n fields⟩ : Obj)) ∈
+      (cfg.next, (⟨0, trFieldsP cw n fields⟩ : Obj)) :: trHeap τ cfg.heap :=
     List.mem_cons_self
   have hp0 : p ≠ 0 := by
     have := (R1.shape _ hnew).pos
@@ -225,7 +239,21 @@ theorem store_x3 {la : String → Option Nat}
       have := (X3R.ref_lt X hi' hc' hr h0).2
       show _ = BitVec.ofNat 64 (if r.toNat = cfg.next then p else ι r.toNat)
       rw [if_neg (by omega)]
-  · rw [hheap, hnx]
+  · rw [hheap, hnx, trHeap_cons]
+    have e1 : trO (storeTau τ cfg.next cw n) cfg.next ⟨0, fields⟩ = ⟨0, trFieldsP cw n fields⟩ := by
+      have e0 : storeTau τ cfg.next cw n cfg.next = fun j => cw (n + j) := by
+        funext j; simp [storeTau]
+      simp only [trO, e0]
+      rw [trFieldsP_shift cw n 0 fields, Nat.add_zero]
+    have e2 : trHeap (storeTau τ cfg.next cw n) cfg.heap = trHeap τ cfg.heap := by
+      apply trHeap_congr
+      intro e he j _
+      have hlt : e.1 < cfg.next := by
+        have := X.href.abs.ids (e.1, trO τ e.1 e.2) (List.mem_map.2 ⟨e, he, rfl⟩)
+        exact this.2.1
+      simp only [storeTau]
+      rw [if_neg (by omega)]
+    rw [e1, e2]
     exact R1
 
 end Scc.RV.Ref
